@@ -40,6 +40,16 @@ Theorem C11_add_refines_table : forall w t e idx env rs bs,
 Proof. exact add_is_splice. Qed.
 Print Assumptions C11_add_refines_table.
 
+(* embedding a live application inserts EVERY one of its routes, in its order, as one contiguous block at the index *)
+Theorem C11_embed_refines_table : forall w t p s rb inh idx env rs senv srcs w',
+  wget w t = Some (env, rs) -> wget w s = Some (senv, srcs) ->
+  wstep w (OEmbed t p s rb inh idx) = (w', WOk) ->
+  exists bs, w' = wset w t (env, splice rs idx bs) /\
+             map (fun x => b_key (fst x)) bs = map (fun x => b_key (fst x)) srcs /\
+             List.length bs = List.length srcs.
+Proof. exact embed_is_splice_of_all. Qed.
+Print Assumptions C11_embed_refines_table.
+
 Example C11_example :
   add_routes [1; 2; 3] (Some (-1)%Z) [8; 9] = [1; 2; 8; 9; 3] /\
   add_routes [1; 2; 3] (Some 7%Z) [8; 9] = [1; 2; 3; 8; 9] /\
